@@ -258,7 +258,10 @@ pub fn replay_case(c: &J) -> Result<(), String> {
         Some("grammar_conformance_lexical") => {
             let f = fmts::ascii();
             let x = ln_from_json(&c["value"]);
-            case(&crate::props::c02::format_all_routes(&f, &x)?, kind_name(&x))
+            for s in crate::props::c02::format_routes(&f, &x) {
+                case(&s, kind_name(&x))?;
+            }
+            Ok(())
         }
         _ => {
             let f = fmts::ascii();
@@ -317,35 +320,18 @@ pub fn run(run: &Run) {
     vals.par_iter().for_each(|v| {
         run.eval(1);
         let v2 = v.clone();
-        // every formatting route (format_narsese, the per-kind formatters, the FormatTo trait on
-        // the wrapped value AND on the bare sentence / task) must print the same text
-        let routes = crate::report::quiet_catch(std::panic::AssertUnwindSafe(move || {
-            use narsese::api::FormatTo;
-            let n = v2.build();
-            let s = crate::props::c01::format_all_routes(&f, &n)?;
-            let s4 = match &n {
-                Narsese::Term(t) => t.format_to(f.e),
-                Narsese::Sentence(x) => x.format_to(f.e),
-                Narsese::Task(x) => x.format_to(f.e),
-            };
-            if s4 != s {
-                return Err(format!("format_narsese gives {s:?} but format_to on the unwrapped value gives {s4:?}"));
-            }
-            Ok(s)
-        }));
-        let s = match routes {
-            Ok(Ok(s)) => s,
-            Ok(Err(msg)) => {
-                run.violation(&format!("the ASCII formatting routes disagree: {msg}"), json!({"op": "grammar_conformance_enum", "value": v.to_json(), "text": ""}), &[]);
-                return;
-            }
+        // every text a public formatting route prints for the value is "a string the ASCII formatter produces"
+        let texts = match crate::report::quiet_catch(std::panic::AssertUnwindSafe(move || crate::props::c01::format_routes(&f, &v2.build()))) {
+            Ok(t) => t,
             Err(_) => return,
         };
+        for s in texts {
         distinct.add(&s);
         let k = match v.kind() { Kind::Term => "term", Kind::Sentence => "sentence", Kind::Task => "task" };
         if let Err(msg) = crate::watch::case(&s, || case(&s, k)) {
             let feats: Vec<String> = if v.term.any(&|n| name_holds_grammar_copula(&n.name)) { vec![KF6.to_string()] } else { vec![] };
             run.violation(&msg, json!({"op": "grammar_conformance_enum", "value": v.to_json(), "text": s}), &feats);
+        }
         }
     });
     let mut lv: Vec<LN> = lexu::u_term(&f, 1, tier == Tier::Thorough).into_iter().map(LN::Term).collect();
@@ -366,15 +352,15 @@ pub fn run(run: &Run) {
     run.count("lexical_values", lv.len() as u64);
     lv.par_iter().for_each(|x| {
         run.eval(1);
-        // every public formatting route of the lexical formatter must print the same text: all of them are
-        // "the ASCII formatters" of the property
-        let s = match crate::report::quiet_catch(std::panic::AssertUnwindSafe(|| crate::props::c02::format_all_routes(&f, x))) {
-            Ok(Ok(s)) => s,
-            Ok(Err(msg)) | Err(msg) => {
-                run.violation(&format!("the lexical ASCII formatter's routes disagree on {x:?}: {msg}"), json!({"op": "grammar_conformance_lexical", "value": ln_to_json(x), "text": ""}), &[]);
+        // every text a public route of the lexical formatter prints is "a string the ASCII formatter produces"
+        let texts = match crate::report::quiet_catch(std::panic::AssertUnwindSafe(|| crate::props::c02::format_routes(&f, x))) {
+            Ok(t) => t,
+            Err(msg) => {
+                run.violation(&format!("the lexical ASCII formatter panics on {x:?}: {msg}"), json!({"op": "grammar_conformance_lexical", "value": ln_to_json(x), "text": ""}), &[]);
                 return;
             }
         };
+        for s in texts {
         distinct.add(&s);
         if let Err(msg) = crate::watch::case(&s, || case(&s, kind_name(x))) {
             fn any_name(t: &LTerm, f: &dyn Fn(&str) -> bool) -> bool {
@@ -386,6 +372,7 @@ pub fn run(run: &Run) {
             }
             let feats: Vec<String> = if any_name(crate::props::c02::term_of(x), &name_holds_grammar_copula) { vec![KF6.to_string()] } else { vec![] };
             run.violation(&msg, json!({"op": "grammar_conformance_lexical", "value": ln_to_json(x), "text": s}), &feats);
+        }
         }
     });
     run.add_distinct(distinct.len());
